@@ -41,6 +41,15 @@ def install(spec, events):
     crash_at = spec.get('crash_at', -1)
 
     def tick(ev):
+        if counter['n'] == spec.get('rival_at', -2) and not counter.get('rival'):
+            # a second, complete write of ANOTHER collection to the same path by another process while this one holds the file open
+            # (a job submitted twice); whether it is refused (file locking) or completes, this writer carries on
+            import subprocess
+            counter['rival'] = True
+            rival = {k: v for k, v in spec.items() if k not in ('rival_at', 'trace', 'preexisting')}
+            rival.update(seed=spec.get('seed', 1) + 500, crash_at=-1)
+            subprocess.run([sys.executable, '-W', 'ignore', '-m', 'harness.h5writer', json.dumps(rival)], cwd=os.path.dirname(os.path.dirname(os.path.abspath(__file__))),
+                           stdout=subprocess.DEVNULL, stderr=subprocess.DEVNULL, timeout=300)
         if counter['n'] == crash_at:
             if spec.get('kill') == 'sigterm':
                 import signal, time
